@@ -519,7 +519,8 @@ def c01(tier, seed):
                            "via_create_on_xstream", "via_create_many", "via_external_thread", "exit_by_self_exit",
                            "exit_by_thread_exit", "eventual_waits", "stacked_schedulers", "programs_with_user_scheduler",
                            "units_run_by_user_scheduler", "units_checked_at_xstream_join", "primary_scheduler_replaced",
-                           "stacked_schedulers_freed_by_user", "stacked_schedulers_automatic"]
+                           "stacked_schedulers_freed_by_user", "stacked_schedulers_automatic",
+                           "stacked_units_that_block_and_yield_after_resume", "stacked_scheduler_kind_basic_wait"]
     return c
 
 
